@@ -1,6 +1,6 @@
 """Sidecar contracts for pjrpc/client/client.py."""
 from pyvc.api import contract
-from spec.prims import (at_entry, class_is, ev_args, ev_callee, ev_kind, ev_kwargs, ev_outcome, ev_value, implies,
+from spec.prims import (at_entry, class_is, ev_args, ev_callee, ev_kind, ev_kwargs, ev_outcome, ev_value, implies, seq_same,
                         is_absent, member, old, same, tlen)
 
 from pjrpc.common.common import UNSET
@@ -162,3 +162,86 @@ class RawSendSingle:
                 and valid_response_obj(ufv('parsed', ev_value(b)))
                 and ev_kind(b + 1) == 'call' and same(ev_callee(b + 1), validator) and ev_outcome(b + 1) == 'ret'
                 and same(ev_args(b + 1)[0], request) and same(ev_args(b + 1)[1], result))
+
+
+# ------------------------------------------------------------------------------------------------ C07: call / notify / send
+@contract('pjrpc.client.client:AbstractClient._send@stack', also=('pjrpc.client.client:AbstractAsyncClient._send@stack',),
+          props=['C07', 'C08'])
+class SendStack:
+    """ASSUMED composition of the decorator stack retried(traced(raw _send)): each layer is proved separately
+    (RetriedWrapper / RetryWrapped, TracedWrapper, RawSendSingle); that the stacked callable makes at least one
+    raw send of THIS request and hands back the last raw outcome is the (paper) composition of those contracts."""
+    assumed = True
+    types = {'self': 'pjrpc.client.client:BaseAbstractClient', 'request': '=pjrpc.common.v20:Request'}
+    raises_only = ('BaseException',)
+    modifies = ('$trace',)
+
+    def ensures_outcome(self, request, response_class, validator, _trace_ctx, result):
+        b = old(tlen())
+        if not (tlen() > b and transport_call(b, request, request._id is None)):
+            return False
+        if request._id is None:
+            return result is None
+        return (isinstance(result, Response) and class_is(result, Response)
+                and (result._id is None or not self.strict or same(result._id, request._id))
+                and ((result._result is UNSET) != (result._error is UNSET))
+                and (result._error is UNSET or isinstance(result._error, exceptions.JsonRpcError)))
+
+
+def args_or_kwargs_wire(doc, args, kwargs):
+    """the params member carries the positional arguments if any were given, else the named ones, else is absent"""
+    p = member(doc, 'params')
+    if len(args) > 0:
+        return isinstance(p, tuple) and seq_same(p, args)
+    if len(kwargs) > 0:
+        return isinstance(p, dict) and len(p) == len(kwargs)
+    return is_absent(p)
+
+
+@contract('pjrpc.client.client:AbstractClient.call', also=('pjrpc.client.client:AbstractAsyncClient.call',),
+          props=['C07', 'C11'])
+class ClientCall:
+    types = {'self': 'pjrpc.client.client:BaseAbstractClient', 'method': 'str', '_trace_ctx': 'any'}
+    raises_only = ('BaseException',)
+    modifies = ('$trace',)
+    cross_check = False
+
+    def requires_config(self, method, args, _trace_ctx, kwargs):
+        return client_config_ok(self)
+
+    def ensures_request(self, method, args, _trace_ctx, kwargs, result):
+        # C07: one well-formed request document on the wire: the method, a fresh non-null id, the arguments
+        # positional or named as given
+        b = old(tlen())
+        if not (tlen() >= b + 3):
+            return False
+        text = ev_args(b + 2)[0]
+        doc = ufv('doc_of', text)
+        i = member(doc, 'id')
+        return (ev_kind(b + 2) == 'call:_request' and isinstance(doc, dict)
+                and member(doc, 'jsonrpc') == '2.0' and same(member(doc, 'method'), method)
+                and not is_absent(i) and i is not None and id_ok(i) and same(i, ev_value(b + 1))
+                and same(ev_args(b + 2)[1], False) and args_or_kwargs_wire(doc, args, kwargs))
+
+
+@contract('pjrpc.client.client:AbstractClient.notify', also=('pjrpc.client.client:AbstractAsyncClient.notify',),
+          props=['C07', 'C11'])
+class ClientNotify:
+    types = {'self': 'pjrpc.client.client:BaseAbstractClient', 'method': 'str', '_trace_ctx': 'any'}
+    raises_only = ('BaseException',)
+    modifies = ('$trace',)
+    cross_check = False
+
+    def requires_config(self, method, args, _trace_ctx, kwargs):
+        return client_config_ok(self)
+
+    def ensures_request(self, method, args, _trace_ctx, kwargs, result):
+        # C07: a notification puts one document WITHOUT an id member on the wire and returns nothing
+        b = old(tlen())
+        if not (tlen() >= b + 1):
+            return False
+        doc = ufv('doc_of', ev_args(b)[0])
+        return (result is None and ev_kind(b) == 'call:_request' and isinstance(doc, dict)
+                and member(doc, 'jsonrpc') == '2.0' and same(member(doc, 'method'), method)
+                and is_absent(member(doc, 'id')) and same(ev_args(b)[1], True)
+                and args_or_kwargs_wire(doc, args, kwargs))
